@@ -31,6 +31,8 @@ var stateOrder = map[string]int{"opening": 0, "open": 1, "closing": 2, "closed":
 func init() {
 	register("C03", func(c *core.Ctx, tier string) {
 		c03StateWrites(c)
+		casPolarity(c, "C03.2b")
+		c03ConstructionWiring(c, "C03.9")
 		c03CloseEpilogue(c)
 		c03Reasons(c)
 		c03Silence(c)
